@@ -64,14 +64,12 @@ def e_spine(tier):
 def cases(tier, seed):
     out = []
     for spec in c01.spine(tier, seed):
-        big = spec['prod'] in ('B-ids', 'B-md', 'B-x', 'B-full')
-        ws = ['to_hdf5'] if (big and tier == 'quick') or spec['prod'] == 'B-full' else DIRECT_WRITERS
-        for w in ws:
-            for comp in (True, False):
+        for w in c01.writers_for(spec, tier):
+            for comp in c01.compress_for(spec):
                 out.append(dict(spec, writer=w, compress=comp))
         # the input file canonicalises the layout, so convert is enumerated on the fresh layout only;
         # a table that was loaded from a file cannot be re-written with group metadata (see report)
-        if spec.get('layout') == 'csr' and not spec.get('gmd') and spec['prod'] != 'B-full':
+        if spec.get('layout') == 'csr' and not spec.get('gmd') and spec['prod'] not in ('B-full', 'A2'):
             for w in CONVERT_WRITERS:
                 out.append(dict(spec, writer=w, compress=True))
     for spec in e_spine(tier):
@@ -318,9 +316,10 @@ def bound(tier):
                                           "file canonicalises the layout), compress on"]
     del b['A']['loaders']
     del b['B']['loaders']
-    b['B']['writers'] = ("B-ids/B-md/B-x: ['to_hdf5'] in quick, all 3 direct writers in thorough; "
-                         "B-hdr/B-type: all 3; B-full: ['to_hdf5']; plus both convert writers wherever "
-                         "layout == 'csr' and no group metadata (not on B-full)")
+    b['B']['writers'] += ("; plus both convert writers wherever layout == 'csr' and no group metadata "
+                          "(not on B-full)")
+    if b.get('A2'):
+        del b['A2']['loaders']
     b['E'] = {'shapes': E_SHAPES_QUICK if tier == 'quick' else E_SHAPES_THOROUGH, 'routes': E_ROUTES,
               'id_styles': E_STYLES, 'metadata_kinds_on_non_empty_axes': E_MD, 'compress': [True, False],
               'writers': DIRECT_WRITERS + ["convert:* on route 'csr_input' only"],
